@@ -297,6 +297,21 @@ func (c *pmCtx) section(blk *ast.BlockStmt) {
 	}
 	as, ok := blk.List[0].(*ast.AssignStmt)
 	if !ok || as.Tok != token.DEFINE || len(as.Lhs) != 1 || len(as.Rhs) != 1 {
+		// a header section without the `header := r.Header` temporary: every parameter block looks the
+		// request's header map up directly (`hs := r.Header.Values(K)`)
+		direct := len(blk.List) > 0
+		for _, st := range blk.List {
+			b, isBlk := st.(*ast.BlockStmt)
+			if !isBlk || len(b.List) == 0 || !c.directHeaderLookup(b.List[0]) {
+				direct = false
+			}
+		}
+		if direct {
+			for _, st := range blk.List {
+				c.valueBlock("header", nil, st.(*ast.BlockStmt))
+			}
+			return
+		}
 		c.und("section does not start with a source binding")
 		return
 	}
@@ -327,6 +342,26 @@ func (c *pmCtx) section(blk *ast.BlockStmt) {
 	default:
 		c.und("section source %s is not r.URL.Query() / r.Header / r.URL.Path", rhs)
 	}
+}
+
+// isReqHeader: e is `<request parameter>.Header`.
+func (c *pmCtx) isReqHeader(e ast.Expr) bool {
+	sel, ok := ast.Unparen(e).(*ast.SelectorExpr)
+	return ok && sel.Sel.Name == "Header" && identObj(c.info, sel.X) == c.req
+}
+
+// directHeaderLookup: st is `hs := r.Header.Values(K)`.
+func (c *pmCtx) directHeaderLookup(st ast.Stmt) bool {
+	as, ok := st.(*ast.AssignStmt)
+	if !ok || as.Tok != token.DEFINE || len(as.Lhs) != 1 || len(as.Rhs) != 1 {
+		return false
+	}
+	call, ok := as.Rhs[0].(*ast.CallExpr)
+	if !ok || calleeName(c.info, call) != "net/http.Header.Values" {
+		return false
+	}
+	sel, ok := call.Fun.(*ast.SelectorExpr)
+	return ok && c.isReqHeader(sel.X)
 }
 
 // valueBlock: { q, ok := query[K] … } or { hs := header.Values(K) … }
@@ -367,7 +402,7 @@ func (c *pmCtx) valueBlock(in string, container types.Object, blk *ast.BlockStmt
 			row.Undecided = append(row.Undecided, "header lookup is not `hs := header.Values(<const>)`")
 			return
 		}
-		if sel, ok := call.Fun.(*ast.SelectorExpr); !ok || identObj(c.info, sel.X) != container {
+		if sel, ok := call.Fun.(*ast.SelectorExpr); !ok || (container != nil && identObj(c.info, sel.X) != container) || (container == nil && !c.isReqHeader(sel.X)) {
 			row.Undecided = append(row.Undecided, "header lookup is not on r.Header")
 			return
 		}
